@@ -106,7 +106,7 @@ def run(tier, rep, replay=None):
 INTREE = ["ecc/p384", "ecc/fourq", "dh/csidh", "sign/ed25519"]
 
 MANIFEST = {
- "text": "TowerMachine.tla defines Fp2 = Fp[u]/(u^2+1), Fp6 = Fp2[v]/(v^3-(1+u)), Fp12 = Fp6[w]/(w^2-v) of BLS12-381 from their reduction polynomials and computes the expected coefficients of add / sub / neg / mul / sqr / inv / conjugation / multiplication by the non-residue over the integers (positive and negative parts, so no subtraction); TLC checks every recorded coefficient of ecc/bls12381/ff operations (structured coefficients 0, 1, p-1, p-k, (p-1)/2, 2^(64k), random; all aliasing patterns) with untrusted quotient hints and that operands are unchanged. FieldMachine.tla states, per operation, what a finite-field step must satisfy (destination congruent to the mathematical result for any admissible representative, canonical forms for reductions / zero and equality tests / byte export, all other registers unchanged bit for bit, square-root and non-residue certificates, inverse), with the moduli as constants; the same relations are checked exhaustively on toy primes of the same shapes. Recorders drive fp25519, fp448, Goldilocks scalars, BLS12-381 Fp and Scalar, Prio3 fp64/fp128 and the four group scalar fields (and, in package, P-384, FourQ, CSIDH, Ed25519 scalar reduction) through all operations with the structured whole-element operand set (neighbours of multiples of p, limb-boundary powers of two, maxima; full cross product for mul/add/sub), in all aliasing patterns, under three back-end configurations (default asm, purego, BMI2/ADX off), and TLC checks every recorded congruence with multi-precision BigNat arithmetic and untrusted quotient hints.",
+ "text": "TowerMachine.tla defines Fp2 = Fp[u]/(u^2+1), Fp6 = Fp2[v]/(v^3-(1+u)), Fp12 = Fp6[w]/(w^2-v) of BLS12-381 from their reduction polynomials and computes the expected coefficients of add / sub / neg / mul / sqr / inv / conjugation / multiplication by the non-residue over the integers (positive and negative parts, so no subtraction); TLC checks every recorded coefficient of ecc/bls12381/ff operations (structured coefficients 0, 1, p-1, p-k, (p-1)/2, 2^(64k), random; all aliasing patterns) with untrusted quotient hints and that operands are unchanged. FieldMachine.tla states, per operation, what a finite-field step must satisfy (destination congruent to the mathematical result for any admissible representative, canonical forms for reductions / zero and equality tests / byte export, all other registers unchanged bit for bit, square-root and non-residue certificates, inverse), with the moduli as constants; the same relations are checked exhaustively on toy primes of the same shapes. Recorders drive fp25519, fp448, Goldilocks scalars, BLS12-381 Fp and Scalar, Prio3 fp64/fp128 and the four group scalar fields (and, in package, P-384, FourQ, CSIDH, Ed25519 scalar reduction) through all operations with the structured whole-element operand set (neighbours of multiples of p, limb-boundary powers of two, maxima; full cross product for mul/add/sub), in all aliasing patterns, under three back-end configurations (default asm, purego, BMI2/ADX off), and TLC checks every recorded congruence with multi-precision BigNat arithmetic and untrusted quotient hints. Goldilocks scalars are also driven with unreduced 56-byte operands (Add, Sub, Mul, Neg).",
  "note": "Sampling, boundary-biased: ~260 events per field adapter and configuration in quick, 8000 in thorough. Tower fields: 22 operations x 5 aliasing patterns per run in quick (x 8 in thorough); Kyber / Dilithium Z_q reductions are evaluated over their complete domains in C03 / C04.",
  "technique": "TLA+ BigNat relations checked by TLC on recorded real-code operations (trace validation with untrusted hints); toy-prime exhaustive check of the relations",
 }
